@@ -20,12 +20,13 @@ import (
 // Req is a hand-built request. Path is the decoded URL path exactly as the
 // handler will see it in r.URL.Path.
 type Req struct {
-	Method string
-	Path   string
-	Query  string // raw query
-	Host   string
-	Header [][2]string
-	Body   []byte
+	RawTarget string // request target as sent on the wire (overrides Path); parsed like net/http does
+	Method    string
+	Path      string
+	Query     string // raw query
+	Host      string
+	Header    [][2]string
+	Body      []byte
 	// BodyReader overrides Body (fault injection, fragmentation, scheduling points).
 	BodyReader io.Reader
 	// ContentLength: nil = len(Body); otherwise the declared value. NoLength omits it.
@@ -121,6 +122,17 @@ func (r Req) Build() *http.Request {
 		ProtoMinor: 1,
 		Header:     http.Header{},
 		Host:       host,
+	}
+	if r.RawTarget != "" {
+		// the request target as it is on the wire, parsed the way net/http's server
+		// parses it (Path decoded, RawPath kept when the escaping is not the default one)
+		if u, err := url.ParseRequestURI(r.RawTarget); err == nil {
+			hr.URL.Path, hr.URL.RawPath = u.Path, u.RawPath
+			if u.RawQuery != "" {
+				hr.URL.RawQuery = u.RawQuery
+			}
+			hr.RequestURI = r.RawTarget
+		}
 	}
 	for _, h := range r.Header {
 		hr.Header[http.CanonicalHeaderKey(h[0])] = append(hr.Header[http.CanonicalHeaderKey(h[0])], h[1])
